@@ -57,6 +57,52 @@ func genTypes(repo, out string) {
 		fmt.Fprintf(&b, "def hhmmMaxHours%s : Nat := %s\n", s.suffix, maxHr)
 		fmt.Fprintf(&b, "def hhmm24Rule%s : Bool := %s\n", s.suffix, rule24)
 	}
+	// string tables indexed by decoded values (C04): ControlState.String / MarshalJSON
+	fd := parseFile(filepath.Join(repo, "types/door.go"))
+	for _, name := range []string{"String", "MarshalJSON"} {
+		fn := findFunc(fd, name, "ControlState")
+		table := []string{}
+		guard := ""
+		indexed := "false"
+		delegates := "false"
+		if fn != nil {
+			ast.Inspect(fn.Body, func(n ast.Node) bool {
+				switch v := n.(type) {
+				case *ast.CompositeLit:
+					if _, ok := v.Type.(*ast.ArrayType); ok && len(table) == 0 {
+						for _, e := range v.Elts {
+							table = append(table, src(e))
+						}
+					}
+				case *ast.IfStmt:
+					if guard == "" {
+						ret := false
+						for _, st := range v.Body.List {
+							if _, ok := st.(*ast.ReturnStmt); ok {
+								ret = true
+							}
+						}
+						if ret {
+							guard = src(v.Cond)
+						}
+					}
+				case *ast.IndexExpr:
+					if src(v.Index) == "v" {
+						indexed = "true"
+					}
+				case *ast.CallExpr:
+					if src(v.Fun) == "v.String" {
+						delegates = "true"
+					}
+				}
+				return true
+			})
+		}
+		fmt.Fprintf(&b, "def controlState%sTable : List String := [%s]\n", name, strings.Join(table, ", "))
+		fmt.Fprintf(&b, "def controlState%sGuard : String := %s\n", name, leanStr(guard))
+		fmt.Fprintf(&b, "def controlState%sIndexesByValue : Bool := %s\n", name, indexed)
+		fmt.Fprintf(&b, "def controlState%sDelegatesToString : Bool := %s\n", name, delegates)
+	}
 	b.WriteString("end Uhppote.Gen.Types\n")
 	writeIfChanged(filepath.Join(out, "Types.lean"), b.String())
 }
